@@ -175,7 +175,7 @@ def main():
     for tail in ('', '?q'):
         cases.append(dict(ob='lookup', nlen=3, slash=False, tail=tail, alphabet='ab.'))
     chk.bounds = {'mime name lengths': [c['n'] for c in cases if c['ob'] == 'mime' and not c.get('suffix')], 'lookup targets': [c for c in cases if c['ob'] == 'lookup']}
-    results = chk.run_cases(case, cases, label='C02 obligations', case_timeout=500)
+    results = chk.run_cases(case, cases, label='C02 obligations', case_timeout=1200)
     chk.extra['compared'] = sum(r.get('compared', 0) for r in results)
 
     def replay(v):
